@@ -1,10 +1,47 @@
-"""Tie T for C11: QCumulantFlow.__calculate_corr (numpy over per-event vectors) -> Gen/QCumulant.lean.
+"""Tie T for C11: QCumulantFlow (numpy over per-event vectors, scalar if-chains) -> Gen/QCumulant.lean.
 
-The three `if k == K:` blocks of `__calculate_corr` are straight-line numpy: assignments of expressions over the
-per-event vectors `mult`, `Qn`, `Q2n`, `Q3n` and scalars derived from them.  The translator does a small shape
-inference (SR real scalar, SC complex scalar, VR real per-event vector, VC complex per-event vector), maps numpy
-operations to Core/Vec.lean and emits, for each K, `corrK (evs : List (Event α)) : α` = the value returned as
-`corr`, with one `let` per source assignment it depends on.  Anything outside the fragment raises Untranslatable.
+Three fragments of src/sparkx/flow/QCumulantFlow.py are re-translated on every run:
+
+1. `__calculate_corr`.  The three `if k == K:` blocks are straight-line numpy: assignments of expressions over the
+   per-event vectors `mult`, `Qn`, `Q2n`, `Q3n` and scalars derived from them.  The translator does a small shape
+   inference (SR real scalar, SC complex scalar, VR real per-event vector, VC complex per-event vector), maps numpy
+   operations to Core/Vec.lean and emits, for each K, `corrK (evs : List (Event α)) : α` = the value returned as
+   `corr`, with one `let` per source assignment it depends on.
+
+2. The scalar decision logic (`__init__`: `cumulant_factor_`; `__cumulant_flow`: `cum2/cum4/cum6`;
+   `__flow_from_cumulant`, `__flow_from_cumulant_differential`), by symbolic execution of the if-chains
+   (second half of this file).
+
+3. The differential bin function `__compute_differential_flow_bin`, VALUE PART ONLY (everything that feeds the
+   error estimate - variance, *_err, covariance terms, avg_vn*_err* - is ignored; it is simply never reached by the
+   dependency closure of the translated values).  Emitted:
+     `dargs2 (evs : List (PEvent α)) (c2 : α) : α × Cx α`     the two arguments of the call of
+         `__flow_from_cumulant_differential` whose result is returned when `self.k_ == 2`
+     `dargs4 (evs : List (PEvent α)) (c2 c4 : α) : α × Cx α`  the same for `self.k_ == 4`
+   The statements of the function are put in execution order for the given order K (`if self.k_ == C:` blocks are
+   entered iff C == K); the value returned is `[<v>.real, …]`, the LAST assignment of `<v>` must be the call; the
+   dependency closure of its two arguments becomes one `let` per source assignment (same shape inference as in 1).
+   What the parameters mean is DERIVED from `differential_flow`, not assumed:
+     * the list `full_event_quantities` is found as the first argument of the (single) call of
+       `__compute_differential_flow_bin`; its element i is resolved through the list literal assigned to that name
+       (the unconditional one for K = 2, the one under `if self.k_ == 4:` for K = 4) and the definition of the
+       element's name: `self.__Qn(<all>, m * self.n_)` -> Q-vectors `Qm m (full e)`; `[len(i) for i in <all>]` ->
+       `mult (full e)`; first component of `self.__calculate_corr(<all>, k=2 / k=4)` -> the scalar `c2` / `c4`;
+       every other element is opaque (using it raises Untranslatable).  `<all>` must be one and the same name.
+     * the second and third argument of the call site must be the SAME expression (today `phi_bin_poi[bin]`: all
+       particles are reference particles, so the POI∩reference set is the POI set); both parameters then denote
+       the POI sub-event `poi e` of the flagged event (`self.__Qn(p, m * self.n_)` -> `Qm m (poi e)`,
+       `np.array([len(i) for i in p])` -> `mult (poi e)`).  WHICH particles the binning loop of
+       `differential_flow` puts into that list is not translated; that is tie C (op `gdflow` / `dflow` of the
+       driver against the public `differential_flow`).
+   numpy forms added for this fragment: `np.divide(num, w, out=np.zeros_like(num), where=(w != 0))` ->
+   `cdivGuard`; `np.vdot(real, complex)` -> `rcvdot`; complex ± real vectors -> `cradd/crsub`; complex scalar /
+   real scalar -> `cdivs`; `np.array(x)` of something that already is a vector -> `x`.
+   `feq_layout(source)` exports the derived layout of `full_event_quantities` so that the harness can call the
+   private function with a correctly built argument.
+
+Anything outside the fragments raises Untranslatable (the harness then falls back to the golden model +
+correspondence).
 """
 import ast
 
@@ -30,9 +67,25 @@ def lit(v):
     return t if v > 0 else f"(-{t})"
 
 
+def _harmonic(h):
+    """self.n_ -> 1, m * self.n_ / self.n_ * m -> m"""
+    if isinstance(h, ast.Attribute) and h.attr == "n_":
+        return 1
+    if isinstance(h, ast.BinOp) and isinstance(h.op, ast.Mult):
+        for a, b in ((h.left, h.right), (h.right, h.left)):
+            if isinstance(a, ast.Constant) and isinstance(a.value, int) and not isinstance(a.value, bool) and a.value >= 0 \
+                    and isinstance(b, ast.Attribute) and b.attr == "n_":
+                return a.value
+    raise Untranslatable("harmonic of __Qn: " + ast.unparse(h))
+
+
 class Tr:
+    # name of the angle list handed to __Qn -> Lean event selector applied to `e` ("" = the event itself)
+    qn_sources = {"phi": ""}
+
     def __init__(self, env):
         self.env = dict(env)  # name -> T
+        self.qn_src = ""
 
     def call_name(self, f):
         if isinstance(f, ast.Attribute) and isinstance(f.value, ast.Name) and f.value.id == "np":
@@ -44,21 +97,17 @@ class Tr:
         if not (isinstance(node, ast.Call) and isinstance(node.func, ast.Attribute) and node.func.attr.endswith("__Qn")
                 and isinstance(node.func.value, ast.Name) and node.func.value.id == "self" and len(node.args) == 2):
             return None
-        if not (isinstance(node.args[0], ast.Name) and node.args[0].id == "phi"):
-            raise Untranslatable("__Qn on something other than phi")
-        h = node.args[1]
-        if isinstance(h, ast.Attribute) and h.attr == "n_":
-            return 1
-        if isinstance(h, ast.BinOp) and isinstance(h.op, ast.Mult):
-            for a, b in ((h.left, h.right), (h.right, h.left)):
-                if isinstance(a, ast.Constant) and isinstance(a.value, int) and isinstance(b, ast.Attribute) and b.attr == "n_":
-                    return a.value
-        raise Untranslatable("harmonic of __Qn: " + ast.unparse(h))
+        if not (isinstance(node.args[0], ast.Name) and node.args[0].id in self.qn_sources):
+            raise Untranslatable("__Qn on something other than " + "/".join(sorted(self.qn_sources)))
+        self.qn_src = self.qn_sources[node.args[0].id]
+        return _harmonic(node.args[1])
 
     def e(self, n):
         m = self.qn_harmonic(n)
         if m is not None:
-            return T(f"(evs.map (Qm {m}))", VC)
+            if self.qn_src == "":
+                return T(f"(evs.map (Qm {m}))", VC)
+            return T(f"(evs.map (fun e => Qm {m} ({self.qn_src} e)))", VC)
         if isinstance(n, ast.Name):
             if n.id in self.env:
                 return T(n.id + "_", self.env[n.id].ty)
@@ -541,6 +590,318 @@ def render_cumulants(source):
     return "\n".join(out), fn
 
 
+# ---------------------------------------------------------------------------------------------------------------
+# third fragment: the differential bin function `__compute_differential_flow_bin` (value part), see module docstring
+
+BIN_FN = "__compute_differential_flow_bin"
+
+
+def _k_test(t):
+    """`self.k_ == C` -> C"""
+    if isinstance(t, ast.Compare) and len(t.ops) == 1 and isinstance(t.ops[0], ast.Eq) and _is_self_attr(t.left, "k_") \
+            and isinstance(t.comparators[0], ast.Constant) and isinstance(t.comparators[0].value, int):
+        return t.comparators[0].value
+    return None
+
+
+def _len_listcomp(v):
+    """`[len(i) for i in X]` / `[float(len(i)) for i in X]`, optionally inside np.array(...) -> 'X'"""
+    if isinstance(v, ast.Call) and isinstance(v.func, ast.Attribute) and v.func.attr == "array" \
+            and isinstance(v.func.value, ast.Name) and v.func.value.id == "np" and len(v.args) == 1 and not v.keywords:
+        v = v.args[0]
+    if not (isinstance(v, ast.ListComp) and len(v.generators) == 1):
+        return None
+    g = v.generators[0]
+    if g.ifs or g.is_async or not isinstance(g.target, ast.Name) or not isinstance(g.iter, ast.Name):
+        return None
+    e = v.elt
+    if isinstance(e, ast.Call) and isinstance(e.func, ast.Name) and e.func.id == "float" and len(e.args) == 1 and not e.keywords:
+        e = e.args[0]
+    if isinstance(e, ast.Call) and isinstance(e.func, ast.Name) and e.func.id == "len" and len(e.args) == 1 \
+            and isinstance(e.args[0], ast.Name) and e.args[0].id == g.target.id:
+        return g.iter.id
+    return None
+
+
+def _self_call(v, suffix):
+    return isinstance(v, ast.Call) and isinstance(v.func, ast.Attribute) and v.func.attr.endswith(suffix) \
+        and isinstance(v.func.value, ast.Name) and v.func.value.id == "self"
+
+
+def _stored_names(node):
+    return {x.id for x in ast.walk(node) if isinstance(x, ast.Name) and isinstance(x.ctx, (ast.Store, ast.Del))}
+
+
+def _call_site(source):
+    """the single call of the bin function in differential_flow -> (differential_flow node, bin function node,
+    name of the list passed as full_event_quantities, [parameter names that receive the POI list])"""
+    dfn = _method(source, "differential_flow")
+    bfn = _method(source, BIN_FN)
+    calls = [c for c in ast.walk(dfn) if _self_call(c, BIN_FN)]
+    if len(calls) != 1:
+        raise Untranslatable(f"{len(calls)} calls of {BIN_FN} in differential_flow")
+    call = calls[0]
+    a = bfn.args
+    if a.vararg or a.kwarg or a.kwonlyargs or a.posonlyargs or a.defaults or len(a.args) != 4:
+        raise Untranslatable(BIN_FN + " signature")
+    params = [x.arg for x in a.args[1:]]
+    if any(isinstance(x, ast.Starred) for x in call.args) or any(k.arg is None for k in call.keywords):
+        raise Untranslatable("star arguments at the call site of " + BIN_FN)
+    given = dict(zip(params, call.args))
+    for k in call.keywords:
+        if k.arg in given or k.arg not in params:
+            raise Untranslatable("keyword arguments at the call site of " + BIN_FN)
+        given[k.arg] = k.value
+    if sorted(given) != sorted(params):
+        raise Untranslatable("arguments at the call site of " + BIN_FN)
+    feq = given[params[0]]
+    if not isinstance(feq, ast.Name):
+        raise Untranslatable("first argument of " + BIN_FN + " is not a name")
+    if ast.dump(given[params[1]]) != ast.dump(given[params[2]]):
+        raise Untranslatable(f"{BIN_FN} is called with different lists for {params[1]} ({ast.unparse(given[params[1]])}) "
+                             f"and {params[2]} ({ast.unparse(given[params[2]])}): the model has q = p only")
+    return dfn, bfn, feq.id, params
+
+
+def feq_layout(source):
+    """{2: [...], 4: [...]}: what element i of `full_event_quantities` is when `self.k_` is 2 / 4, derived from the
+    place where the list is built in `differential_flow`.  Descriptors: ("Q", m) per-event Q-vector of harmonic m*n of
+    the full events, ("M",) their multiplicities, ("corr", K, j) component j of `__calculate_corr(<all>, k=K)`,
+    ("opaque",)."""
+    dfn, bfn, feq, params = _call_site(source)
+    out = {}
+    for K in (2, 4):
+        env, layout, allname = {}, [None], [None]
+
+        def full(n):
+            if not isinstance(n, ast.Name):
+                raise Untranslatable("full-event quantity computed from " + ast.unparse(n))
+            if allname[0] not in (None, n.id):
+                raise Untranslatable(f"full-event quantities computed from different lists ({allname[0]}, {n.id})")
+            allname[0] = n.id
+
+        def run(stmts):
+            for s in stmts:
+                if isinstance(s, ast.Assign) and len(s.targets) == 1:
+                    tg, v = s.targets[0], s.value
+                    if isinstance(tg, ast.Name) and tg.id == feq:
+                        if not (isinstance(v, ast.List) and all(isinstance(x, ast.Name) for x in v.elts)):
+                            raise Untranslatable(f"{feq} is not built as a list of names")
+                        layout[0] = [env.get(x.id, ("opaque",)) for x in v.elts]
+                        continue
+                    if isinstance(tg, ast.Name) and _self_call(v, "__Qn") and len(v.args) == 2 and not v.keywords:
+                        full(v.args[0])
+                        env[tg.id] = ("Q", _harmonic(v.args[1]))
+                        continue
+                    if isinstance(tg, ast.Name) and _len_listcomp(v) is not None:
+                        full(ast.Name(id=_len_listcomp(v)))
+                        env[tg.id] = ("M",)
+                        continue
+                    if isinstance(tg, ast.Tuple) and all(isinstance(x, ast.Name) for x in tg.elts) \
+                            and _self_call(v, "__calculate_corr"):
+                        kw = {k.arg: k.value for k in v.keywords}
+                        kk = kw.get("k", v.args[1] if len(v.args) > 1 else None)
+                        if v.args and isinstance(kk, ast.Constant) and kk.value in (2, 4, 6) and len(kw) + len(v.args) == 2:
+                            full(v.args[0])
+                            for j, x in enumerate(tg.elts):
+                                env[x.id] = ("corr", kk.value, j)
+                            continue
+                if isinstance(s, ast.If) and _k_test(s.test) is not None:
+                    run(s.body if _k_test(s.test) == K else s.orelse)
+                    continue
+                # anything else (validation, the binning loops, the loop over the bins): whatever it stores is unknown
+                for nm in _stored_names(s):
+                    if nm == feq:
+                        raise Untranslatable(f"{feq} is modified in a way the translator does not follow")
+                    env[nm] = ("opaque",)
+
+        run(_strip_doc(dfn.body))
+        if layout[0] is None:
+            raise Untranslatable(f"{feq} is never built (k = {K})")
+        if allname[0] is not None and (allname[0] in params or allname[0] == feq):
+            raise Untranslatable("full-event list name clashes")
+        out[K] = layout[0]
+    return out
+
+
+class TrD(Tr):
+    """expressions of the bin function; `layout` = meaning of full_event_quantities[i]; `poi_params` = the parameters
+    holding the POI angle lists"""
+
+    def __init__(self, env, feq, layout, poi_params):
+        super().__init__(env)
+        self.feq, self.layout = feq, layout
+        self.qn_sources = {p: "poi" for p in poi_params}
+
+    def feq_elt(self, n):
+        if not (isinstance(n, ast.Subscript) and isinstance(n.value, ast.Name) and n.value.id == self.feq):
+            return None
+        ix = n.slice
+        if not (isinstance(ix, ast.Constant) and isinstance(ix.value, int) and not isinstance(ix.value, bool)
+                and 0 <= ix.value < len(self.layout)):
+            raise Untranslatable("index of " + ast.unparse(n))
+        d = self.layout[ix.value]
+        if d[0] == "Q":
+            return T(f"(evs.map (fun e => Qm {d[1]} (full e)))", VC)
+        if d[0] == "M":
+            return T("(evs.map (fun e => mult (full e)))", VR)
+        if d[0] == "corr" and d[2] == 0 and d[1] in (2, 4):
+            self.used_c.add(d[1])
+            return T(f"c{d[1]}", SR)
+        raise Untranslatable(f"{ast.unparse(n)} ({'/'.join(map(str, d))}) is not part of the value fragment")
+
+    used_c = None
+
+    def e(self, n):
+        t = self.feq_elt(n)
+        if t is not None:
+            return t
+        src = _len_listcomp(n)
+        if src is not None:
+            if src not in self.qn_sources:
+                raise Untranslatable("lengths of " + src)
+            return T("(evs.map (fun e => mult (poi e)))", VR)
+        if isinstance(n, ast.Call):
+            name = self.call_name(n.func)
+            if name == "np.array" and len(n.args) == 1 and not n.keywords:
+                a = self.e(n.args[0])
+                if a.ty in (VR, VC):
+                    return a
+                raise Untranslatable("np.array of " + a.ty)
+            if name == "np.divide":
+                kw = {k.arg: k.value for k in n.keywords}
+                if len(n.args) == 2 and sorted(kw) == ["out", "where"]:
+                    num, w = n.args
+                    o, wh = kw["out"], kw["where"]
+                    ok_out = isinstance(o, ast.Call) and self.call_name(o.func) == "np.zeros_like" and len(o.args) == 1 \
+                        and not o.keywords and ast.dump(o.args[0]) == ast.dump(num)
+                    ok_wh = isinstance(wh, ast.Compare) and len(wh.ops) == 1 and isinstance(wh.ops[0], ast.NotEq) \
+                        and ast.dump(wh.left) == ast.dump(w) and isinstance(wh.comparators[0], ast.Constant) \
+                        and not isinstance(wh.comparators[0].value, bool) and wh.comparators[0].value == 0
+                    if ok_out and ok_wh:
+                        a, b = self.e(num), self.e(w)
+                        if (a.ty, b.ty) == (VC, VR):
+                            return T(f"(cdivGuard {a.term} {b.term})", VC)
+                raise Untranslatable("np.divide form: " + ast.unparse(n)[:80])
+            if name == "np.vdot" and len(n.args) == 2 and not n.keywords:
+                a, b = self.e(n.args[0]), self.e(n.args[1])
+                if (a.ty, b.ty) == (VR, VC):
+                    return T(f"(rcvdot {a.term} {b.term})", SC)
+        return super().e(n)
+
+    def binop(self, op, a, b):
+        t = (a.ty, b.ty)
+        if isinstance(op, ast.Add) and t == (VC, VR):
+            return T(f"(cradd {a.term} {b.term})", VC)
+        if isinstance(op, ast.Add) and t == (VR, VC):
+            return T(f"(cradd {b.term} {a.term})", VC)
+        if isinstance(op, ast.Sub) and t == (VC, VR):
+            return T(f"(crsub {a.term} {b.term})", VC)
+        if isinstance(op, ast.Div) and t == (SC, SR):
+            return T(f"(cdivs {a.term} {b.term})", SC)
+        return super().binop(op, a, b)
+
+
+def _bin_sequence(bfn, K):
+    """the statements of the bin function in execution order for self.k_ == K: [(name, value | None)] and the returned
+    expression; value None = the name is (re)bound by something outside the fragment"""
+    seq, ret = [], [None]
+
+    def run(stmts):
+        for s in stmts:
+            if ret[0] is not None:
+                raise Untranslatable("statements after the return")
+            if isinstance(s, ast.Expr) and isinstance(s.value, ast.Constant):
+                continue
+            if isinstance(s, ast.Assign) and len(s.targets) == 1 and isinstance(s.targets[0], ast.Name):
+                seq.append((s.targets[0].id, s.value))
+            elif isinstance(s, (ast.Assign, ast.AnnAssign, ast.AugAssign)):
+                if isinstance(s, ast.AnnAssign) and isinstance(s.target, ast.Name) and s.value is not None:
+                    seq.append((s.target.id, s.value))
+                else:
+                    for nm in sorted(_stored_names(s)):
+                        seq.append((nm, None))
+            elif isinstance(s, ast.If) and _k_test(s.test) is not None:
+                run(s.body if _k_test(s.test) == K else s.orelse)
+            elif isinstance(s, ast.Return):
+                ret[0] = s.value
+            else:
+                raise Untranslatable(f"statement in {BIN_FN}: " + ast.unparse(s)[:60])
+
+    run(_strip_doc(bfn.body))
+    if ret[0] is None:
+        raise Untranslatable(BIN_FN + " has no top-level return")
+    return seq, ret[0]
+
+
+def _free_names(node):
+    bound = set()
+    for x in ast.walk(node):
+        if isinstance(x, ast.comprehension):
+            bound |= _stored_names(x.target)
+    return {x.id for x in ast.walk(node) if isinstance(x, ast.Name) and isinstance(x.ctx, ast.Load)} - bound
+
+
+def render_dargs(source):
+    dfn, bfn, feq_outer, params = _call_site(source)
+    layouts = feq_layout(source)
+    feq, poi_params = params[0], params[1:]
+    outside = {"np", "self", "len", "float", feq, *poi_params}
+    out = []
+    for K in (2, 4):
+        seq, ret = _bin_sequence(bfn, K)
+        if not (isinstance(ret, (ast.List, ast.Tuple)) and len(ret.elts) == 2):
+            raise Untranslatable(BIN_FN + " does not return [value, error]")
+        v = ret.elts[0]
+        if isinstance(v, ast.Attribute) and v.attr == "real":
+            v = v.value
+        if not isinstance(v, ast.Name):
+            raise Untranslatable("returned value is not `<name>.real`")
+        idx = [i for i, (nm, _) in enumerate(seq) if nm == v.id]
+        if not idx:
+            raise Untranslatable(f"{v.id} is never assigned (k = {K})")
+        call = seq[idx[-1]][1]
+        if not (call is not None and _self_call(call, "__flow_from_cumulant_differential") and len(call.args) == 2
+                and not call.keywords):
+            raise Untranslatable(f"the returned {v.id} is not the result of __flow_from_cumulant_differential (k = {K})")
+        before = seq[:idx[-1]]
+        needed = (_free_names(call.args[0]) | _free_names(call.args[1])) - outside
+        order = []
+        for name, val in reversed(before):
+            if name in needed:
+                if val is None:
+                    raise Untranslatable(f"k = {K}: the value depends on {name}, which is bound outside the fragment")
+                order.append((name, val))
+                needed.discard(name)
+                needed |= _free_names(val) - outside
+        if needed:
+            raise Untranslatable(f"k = {K}: undefined names " + ", ".join(sorted(needed)))
+        order.reverse()
+        tr = TrD({}, feq, layouts[K], poi_params)
+        tr.used_c = set()
+        lets = []
+        for name, val in order:
+            t = tr.e(val)
+            tr.env[name] = t
+            lets.append(f"  let {name}_ : {LEAN_TY[t.ty]} := {t.term}")
+        a, b = tr.e(call.args[0]), tr.e(call.args[1])
+        if a.ty != SR:
+            raise Untranslatable(f"k = {K}: first argument of __flow_from_cumulant_differential is not a real scalar")
+        if b.ty == SR:
+            b = T(f"(Cx.ofReal {b.term})", SC)
+        if b.ty != SC:
+            raise Untranslatable(f"k = {K}: second argument of __flow_from_cumulant_differential is not a scalar")
+        if not tr.used_c <= ({2} if K == 2 else {2, 4}):
+            raise Untranslatable(f"k = {K}: uses <<{max(tr.used_c)}>>")
+        sig = "(c2 : α)" if K == 2 else "(c2 c4 : α)"
+        out.append(f"/-- the two arguments `__compute_differential_flow_bin` hands to `__flow_from_cumulant_differential` "
+                   f"when `k_ == {K}`\n(`evs`: the flagged events, `poi e` = the list passed as `{poi_params[0]}` and `{poi_params[1]}`; "
+                   f"`c2`{', `c4`' if K == 4 else ''}: `<<2>>`{', `<<4>>`' if K == 4 else ''} of the full events) -/\n"
+                   f"def dargs{K} (evs : List (PEvent α)) {sig} : α × Cx α :=\n"
+                   + "".join(l + "\n" for l in lets) + f"  ({a.term}, {b.term})\n")
+    return "\n".join(out), bfn, dfn
+
+
 def render(source):
     fn, prelude, blocks = extract(source)
     L = ["-- GENERATED by harness/translate/qcumulant.py from src/sparkx/flow/QCumulantFlow.py -- do not edit",
@@ -559,8 +920,11 @@ def render(source):
     L.append(ffc)
     dfl, f4 = render_dflow(source)
     L.append(dfl)
+    dar, f5, f6 = render_dargs(source)
+    L.append(dar)
     L.append("end SparkxVerif.Gen.QCumulant")
     for name, f in (("__cumulant_flow", f1), ("__init__", f2), ("__flow_from_cumulant", f3),
-                    ("__flow_from_cumulant_differential", f4)):
+                    ("__flow_from_cumulant_differential", f4), (BIN_FN, f5),
+                    ("differential_flow (construction of full_event_quantities, call site of the bin function)", f6)):
         regions.append(dict(file="flow/QCumulantFlow.py", region=name, sha=pyexpr.src_hash(source, f)))
     return "\n".join(L) + "\n", regions
